@@ -354,7 +354,30 @@ def suite_C09():
             continue
         cases.append(('d%d' % k, 'len({%s: 1, %s: 2})' % (ga[0], gb[-1]), '2', dict(a=ga[0], b=gb[-1], what='distinct')))
         k += 1
-    return dsetup, cases
+    # what may be a key: functions, struct instances and streams are refused at every nesting depth (never a crash in the hasher);
+    # streams at the top level are forced into lists
+    for bad in ['len', '(\\x -> x)', 'int', 'vkfoo']:
+        for shape in ['%s', '[%s]', '[1, [2, %s]]', '{1: %s}', '{1: [%s]}']:
+            v = shape % bad
+            cases.append(('hk%d' % k, '{%s: 1}' % v, 'ERR', dict(key=v, what='not a valid key')))
+            k += 1
+            cases.append(('hs%d' % k, 'len(set([%s]))' % v, 'ERR', dict(key=v, what='not a valid key (set)')))
+            k += 1
+            cases.append(('hi%d' % k, '%s in {1: 2}' % v, 'ERR', dict(key=v, what='not a valid key (in)')))
+            k += 1
+    for v in ['[1 til 3]', '[[1 til 3]]', '{1: (1 til 3)}']:
+        cases.append(('hn%d' % k, '{%s: 1}' % v, 'ERR', dict(key=v, what='a stream nested inside a key is refused')))
+        k += 1
+    cases.append(('ht%d' % k, '{(1 til 3): "hit"}[[1, 2]]', 'hit', dict(key='1 til 3', what='a stream key is forced into a list')))
+    k += 1
+    for stored, lookup in [('[1, [2.0, "a"]]', '[1.0, [2, "a"]]'), ('[V(1, 2), [3]]', '[V(1.0, (4/2)), [(3/1)]]'), ('[bytes([1, 2]), null]', '[bytes([1, 2]), null]'),
+                           ('[[], [[]], ""]', '[[], [[]], ""]'), ('{1: [2.0]}', '{1.0: [2]}')]:
+        cases.append(('hq%d' % k, '{%s: "hit"}[%s]' % (stored, lookup), 'hit', dict(stored=stored, lookup=lookup, what='nested equal keys address the same entry')))
+        k += 1
+    for a, b in [('[1, 2]', '[2, 1]'), ('[1, [2]]', '[[1], 2]'), ('"12"', '[1, 2]'), ('bytes([1])', '[1]'), ('V(1)', '[1]'), ('[1]', '1'), ('[]', '""'), ('null', '[]')]:
+        cases.append(('hd%d' % k, 'len({%s: 1, %s: 2})' % (a, b), '2', dict(a=a, b=b, what='unequal keys are distinct entries')))
+        k += 1
+    return dsetup + 'struct VkFoo(a);\nvkfoo := VkFoo(1);\n', cases
 
 
 def suite_C10():
